@@ -17,9 +17,34 @@
 #include <AIToolbox/POMDP/SparseModel.hpp>
 #include <AIToolbox/Factored/MDP/CooperativeModel.hpp>
 #include <AIToolbox/Factored/MDP/Environments/SysAdmin.hpp>
+#include <AIToolbox/MDP/Experience.hpp>
+#include <AIToolbox/MDP/SparseExperience.hpp>
+#include <AIToolbox/MDP/MaximumLikelihoodModel.hpp>
+#include <AIToolbox/MDP/SparseMaximumLikelihoodModel.hpp>
+#include <AIToolbox/Bandit/Model.hpp>
+#include <AIToolbox/Factored/Bandit/Model.hpp>
+#include <AIToolbox/Factored/Bandit/FlattenedModel.hpp>
+#include <AIToolbox/Factored/MDP/CooperativeExperience.hpp>
+#include <AIToolbox/Factored/MDP/CooperativeMaximumLikelihoodModel.hpp>
+#include <AIToolbox/Factored/MDP/CooperativeThompsonModel.hpp>
 
 using namespace verif;
 namespace AI = AIToolbox;
+
+// does the tree under test seed the engine of NO_CHECK-built POMDP models (fixes/C08-7)?  tools/props/c08.py defines it
+#ifndef C08_POMDP_NOCHECK_SEEDED
+#define C08_POMDP_NOCHECK_SEEDED false
+#endif
+
+// ---------------------------------------------------------------- independent mirror of AIToolbox::Seeder
+// Seeder::setRootSeed(r) seeds an mt19937 with r; getSeed() draws uniform_int_distribution<unsigned>(0, max) from it, which for a
+// 32-bit engine of full range is the raw engine word.  The mirror does NOT call the library (a Seeder that hands out
+// repeated or constant seeds would otherwise be mirrored faithfully and go unnoticed).
+struct SeederMirror {
+    std::mt19937 g;
+    explicit SeederMirror(unsigned root) : g(root) {}
+    unsigned next() { return (unsigned)g(); }
+};
 
 // ---------------------------------------------------------------- scripted engine
 struct ScriptEngine {
@@ -116,6 +141,7 @@ static std::vector<uint64_t> sweep(Rng & rng, const std::vector<double> & vals, 
     for (auto & k : ks) k <<= 11;                                   // grid draws as raw 64-bit values
     for (int i = 0; i < 2; ++i) ks.push_back(rng.next());           // off-grid draws (finer than 2^-53 below 1/2)
     ks.push_back(rng.next() >> (unsigned)rng.range(12, 50));        // tiny off-grid draw
+    ks.push_back(~0ull);                                            // both words all ones: generate_canonical would round to 1.0 (libstdc++ clamps it below one)
     return ks;
 }
 
@@ -137,11 +163,14 @@ static void emit_dense(const std::vector<double> & p, const std::vector<uint64_t
 
 // ---------------------------------------------------------------- sparse
 struct Entry { size_t c; double v; };
-static void emit_sparse(const std::vector<std::vector<double>> & rows, size_t r, const std::vector<uint64_t> & ks) {
+static void emit_sparse(const std::vector<std::vector<double>> & rows, size_t r, const std::vector<uint64_t> & ks, bool compressed = true) {
     const size_t R = rows.size(), n = rows[0].size();
     AI::SparseMatrix2D m(R, n);
-    for (size_t i = 0; i < R; ++i) for (size_t j = 0; j < n; ++j) if (rows[i][j] != 0.0) m.insert(i, j) = rows[i][j];
-    m.makeCompressed();
+    if (!compressed) m.reserve(Eigen::VectorXi::Constant(R, (int)n));     // uncompressed mode: every row keeps free slots after its entries
+    // uncompressed: the entries of a row are inserted in descending column order (Eigen keeps the row sorted)
+    for (size_t i = 0; i < R; ++i) for (size_t jj = 0; jj < n; ++jj) { const size_t j = compressed ? jj : n - 1 - jj; if (rows[i][j] != 0.0) m.insert(i, j) = rows[i][j]; }
+    if (compressed) m.makeCompressed();
+    std::printf("#stat sparse_%s 1\n", compressed ? "compressed" : "uncompressed");
     const AI::SparseMatrix2D & cm = m;
     // stored entries of row r and everything stored after it (the flat arrays the iterator indexes)
     std::vector<Entry> row, rest;
@@ -240,7 +269,17 @@ static std::vector<double> mirrorGammas(const std::vector<double> & params, AI::
     for (size_t i = 0; i < params.size(); ++i) { gs[i] = AI::sampleLogGammaDistribution(params[i], mir); mx = std::max(mx, gs[i]); }
     for (auto & g : gs) g = std::exp(g - mx);
 #else
-    for (size_t i = 0; i < params.size(); ++i) { std::gamma_distribution<double> d(params[i], 1.0); gs[i] = d(mir); }
+    double sum = 0.0;
+    for (size_t i = 0; i < params.size(); ++i) { std::gamma_distribution<double> d(params[i], 1.0); gs[i] = d(mir); sum += gs[i]; }
+#ifdef C08_GAMMA_FALLBACK
+    // fixes/C08-8: when every plain draw underflowed to 0 the code draws again in log space (the library's own helper) and scales by the largest
+    if (sum == 0.0) {
+        double mx = -std::numeric_limits<double>::infinity();
+        for (size_t i = 0; i < params.size(); ++i) { gs[i] = AI::sampleLogGammaDistribution(params[i], mir); mx = std::max(mx, gs[i]); }
+        for (auto & g : gs) g = std::exp(g - mx);
+        std::printf("#stat gamma_fallback_taken 1\n");
+    }
+#endif
 #endif
     return gs;
 }
@@ -395,10 +434,14 @@ static void emit_models(Rng & rng, int nsamples) {
     T3 t = genTable(rng, S, A, S, sparse), r = genRewards(rng, S, A);
     T3 o = genTable(rng, S, A, O, sparse);
     std::uniform_real_distribution<double> d01(0.0, 1.0);
-    auto run = [&](auto & pm, const char * kind) {
+    auto run = [&](auto & pm, const char * kind, int skipSeeds, bool pomdpSeeded) {
         // the object drew two seeds from the Seeder (MDP part first, then the POMDP part): mirror them
-        AI::Seeder::setRootSeed(root);
-        std::mt19937 m1(AI::Seeder::getSeed()), m2(AI::Seeder::getSeed());
+        // (`skipSeeds` seeds were drawn before by the object it was copied from; a POMDP part that does not
+        // seed its engine holds a default-constructed std::mt19937)
+        SeederMirror sm(root);
+        for (int i = 0; i < skipSeeds; ++i) sm.next();
+        std::mt19937 m1(sm.next()), m2;
+        if (pomdpSeeded) m2.seed(sm.next());
         std::vector<double> row;
         for (int i = 0; i < nsamples; ++i) {
             size_t s = rng.below(S), a = rng.below(A);
@@ -438,15 +481,204 @@ static void emit_models(Rng & rng, int nsamples) {
             }
         }
     };
+    // construction routes: checked 3-D tables; NO_CHECK (matrices moved in); default object + setters; copy from
+    // the model of the other storage kind through the generic interface
+    using DenseP = AI::POMDP::Model<AI::MDP::Model>;
+    using SparseP = AI::POMDP::SparseModel<AI::MDP::SparseModel>;
+    int route = (int)rng.below(4);
     AI::Seeder::setRootSeed(root);
-    if (!sparse) { AI::POMDP::Model<AI::MDP::Model> pm(O, o, S, A, t, r, 0.9); run(pm, "dense"); }
-    else { AI::POMDP::SparseModel<AI::MDP::SparseModel> pm(O, o, S, A, t, r, 0.9); run(pm, "sparse"); }
+    try {
+        if (route == 1) {
+            AI::Matrix3D T(A, AI::Matrix2D(S, S)), OB(A, AI::Matrix2D(S, O)); AI::Matrix2D R(S, A); R.setZero();
+            for (size_t a = 0; a < A; ++a) for (size_t s = 0; s < S; ++s) {
+                for (size_t s1 = 0; s1 < S; ++s1) { T[a](s, s1) = t[s][a][s1]; R(s, a) += t[s][a][s1] * r[s][a][s1]; }
+                for (size_t x = 0; x < O; ++x) OB[a](s, x) = o[s][a][x];
+            }
+            if (!sparse) {
+                DenseP pm(AI::NO_CHECK, O, std::move(OB), AI::NO_CHECK, S, A, std::move(T), std::move(R), 0.9);
+                std::printf("#stat models_route_nocheck_dense 1\n"); run(pm, "dense", 0, C08_POMDP_NOCHECK_SEEDED);
+            } else {
+                AI::SparseMatrix3D sT(A, AI::SparseMatrix2D(S, S)), sO(A, AI::SparseMatrix2D(S, O));
+                for (size_t a = 0; a < A; ++a) { sT[a] = T[a].sparseView(); sO[a] = OB[a].sparseView(); sT[a].makeCompressed(); sO[a].makeCompressed(); }
+                AI::SparseMatrix2D sR = R.sparseView(); sR.makeCompressed();
+                SparseP pm(AI::NO_CHECK, O, std::move(sO), AI::NO_CHECK, S, A, std::move(sT), std::move(sR), 0.9);
+                std::printf("#stat models_route_nocheck_sparse 1\n"); run(pm, "sparse", 0, C08_POMDP_NOCHECK_SEEDED);
+            }
+            return;
+        }
+        if (route == 2) {
+            if (!sparse) { DenseP pm(O, S, A, 0.9); pm.setTransitionFunction(t); pm.setRewardFunction(r); pm.setObservationFunction(o);
+                std::printf("#stat models_route_setters_dense 1\n"); run(pm, "dense", 0, true); }
+            else { SparseP pm(O, S, A, 0.9); pm.setTransitionFunction(t); pm.setRewardFunction(r); pm.setObservationFunction(o);
+                std::printf("#stat models_route_setters_sparse 1\n"); run(pm, "sparse", 0, true); }
+            return;
+        }
+        if (route == 3) {
+            if (!sparse) { SparseP src(O, o, S, A, t, r, 0.9); DenseP pm(src);
+                std::printf("#stat models_route_copy_dense_from_sparse 1\n"); run(pm, "dense", 2, true); }
+            else { DenseP src(O, o, S, A, t, r, 0.9); SparseP pm(src);
+                std::printf("#stat models_route_copy_sparse_from_dense 1\n"); run(pm, "sparse", 2, true); }
+            return;
+        }
+    } catch (const std::invalid_argument &) {
+        // the copy constructors reject single entries above 1.0 (a row [1+2^-21, 0, ...] passes isProbability): C06's subject
+        std::printf("#stat models_route%d_rejected 1\n", route);
+        AI::Seeder::setRootSeed(root);
+    }
+    std::printf("#stat models_route_tables_%s 1\n", sparse ? "sparse" : "dense");
+    if (!sparse) { DenseP pm(O, o, S, A, t, r, 0.9); run(pm, "dense", 0, true); }
+    else { SparseP pm(O, o, S, A, t, r, 0.9); run(pm, "sparse", 0, true); }
+}
+
+// The engine of a model object must be seeded from the Seeder on every construction route: K observations of a
+// NO_CHECK-built POMDP model against the draws of an mt19937 seeded with the object's (second) Seeder seed.
+static void emit_seeded(Rng & rng, bool sparse, unsigned root) {
+    const size_t S = 2, A = 1, O = 4, K = 16;
+    std::vector<double> orow{0.25, 0.25, 0.25, 0.25};
+    AI::Matrix3D T(A, AI::Matrix2D::Constant(S, S, 0.5)), OB(A, AI::Matrix2D::Constant(S, O, 0.25)); AI::Matrix2D R = AI::Matrix2D::Zero(S, A);
+    SeederMirror sm(root);
+    sm.next();                                               // the MDP part's seed
+    std::mt19937 m2(sm.next());                              // the seed the POMDP part is expected to take
+    std::uniform_real_distribution<double> d01(0.0, 1.0);
+    std::vector<double> us; for (size_t i = 0; i < K; ++i) us.push_back(d01(m2));
+    std::vector<size_t> obs;
+    AI::Seeder::setRootSeed(root);
+    if (!sparse) {
+        AI::POMDP::Model<AI::MDP::Model> pm(AI::NO_CHECK, O, std::move(OB), AI::NO_CHECK, S, A, std::move(T), std::move(R), 0.9);
+        for (size_t i = 0; i < K; ++i) obs.push_back(std::get<0>(pm.sampleOR(0, 0, rng.below(S))));
+    } else {
+        AI::SparseMatrix3D sT(A, AI::SparseMatrix2D(S, S)), sO(A, AI::SparseMatrix2D(S, O));
+        sT[0] = T[0].sparseView(); sO[0] = OB[0].sparseView(); sT[0].makeCompressed(); sO[0].makeCompressed();
+        AI::SparseMatrix2D sR(S, A);
+        AI::POMDP::SparseModel<AI::MDP::SparseModel> pm(AI::NO_CHECK, O, std::move(sO), AI::NO_CHECK, S, A, std::move(sT), std::move(sR), 0.9);
+        for (size_t i = 0; i < K; ++i) obs.push_back(std::get<0>(pm.sampleOR(0, 0, rng.below(S))));
+    }
+    Line l; l << "C08" << "seeded" << (sparse ? "POMDP::SparseModel(NO_CHECK)" : "POMDP::Model(NO_CHECK)"); l.nums(orow); l.nums(us); l << "|"; l.nats(obs); l.emit();
+}
+
+// ---------------------------------------------------------------- isProbability: matrix overloads
+// A D x R x C table, valid except (half of the time) for ONE defective row at a random place; the six
+// matrix-level overloads must agree with the row-by-row reading on which the sampler theorems rest.
+static void emit_isprobm(Rng & rng) {
+    const size_t D = (size_t)rng.range(1, 3), R = (size_t)rng.range(1, 4), C = (size_t)rng.range(1, 6);
+    T3 t(D, std::vector<std::vector<double>>(R));
+    int shape;
+    for (auto & m : t) for (auto & row : m) row = genProb(rng, C, shape);
+    int defect = rng.coin() ? (int)rng.below(7) : -1;
+    const size_t dd = rng.below(D), dr = rng.below(R), i = rng.below(C), j = (i + 1 + rng.below(C > 1 ? C - 1 : 1)) % C;
+    auto & row = t[dd][dr];
+    static const double tiny[] = {1e-7, 1e-9, 0x1p-30, 1e-12, 4e-7};
+    switch (defect) {
+        case 0: { double e = tiny[rng.below(5)]; if (C > 1) { row[j] += row[i] + e; row[i] = -e; } else defect = -1; break; }   // tiny negative entry, sum kept
+        case 1: if (C > 1) { row[j] += row[i] + 0.25; row[i] = -0.25; } else defect = -1; break;                               // large negative entry, sum kept
+        case 2: row[i] += rng.coin() ? 2e-6 : (row[i] >= 2e-6 ? -2e-6 : 2e-6); break;                                         // sum off by 2e-6
+        case 3: { static const double offs[] = {1e-6 + 1e-8, -(1e-6 + 1e-8), 1e-6 - 1e-8, -(1e-6 - 1e-8)}; double o = offs[rng.below(4)]; if (row[i] + o >= 0) row[i] += o; else row[i] -= o; break; }
+        case 4: if (C > 1) { row[j] += row[i] + 1.0; row[i] = -1.0; } else defect = -1; break;                                  // an entry above one balanced by a negative one
+        case 5: row[i] = row[i] == 0.0 ? -0.0 : row[i]; break;                                                                 // negative zero: still valid
+        case 6: for (auto & x : row) x = 0.0; break;                                                                           // all-zero row
+        default: break;
+    }
+    std::printf("#stat isprobm_defect_%d 1\n#stat isprobm_defect_at_%s 1\n", defect, defect < 0 ? "none" : (dd + 1 == D && dr + 1 == R) ? "last_row" : (dd == 0 && dr == 0) ? "first_row" : "inner_row");
+    const bool explicitZeros = rng.coin(1, 3), compressed = !rng.coin(1, 4);
+    AI::Matrix3D m3(D, AI::Matrix2D(R, C)); AI::SparseMatrix3D s3(D, AI::SparseMatrix2D(R, C));
+    for (size_t d = 0; d < D; ++d) {
+        for (size_t r = 0; r < R; ++r) for (size_t c = 0; c < C; ++c) {
+            m3[d](r, c) = t[d][r][c];
+            if (t[d][r][c] != 0.0 || explicitZeros) s3[d].insert(r, c) = t[d][r][c];
+        }
+        if (compressed) s3[d].makeCompressed();
+    }
+    Line l; l << "C08" << "isprobm" << D; for (auto & m : t) { l << R; for (auto & rw : m) l.nums(rw); }
+    l << "|" << AI::isProbability(D, R, C, t) << AI::isProbability(m3) << AI::isProbability(s3)
+      << AI::isProbability(R, C, t[dd]) << AI::isProbability(m3[dd]) << AI::isProbability(s3[dd]);
+    l.emit();
+}
+
+// ---------------------------------------------------------------- rollouts through one object (one engine by reference)
+// The action of every step is a function of ALL earlier outcomes (their sum modulo A), so the row scanned at
+// step t depends on the whole history; the object's engines are mirrored.
+static void emit_traj(Rng & rng, int steps) {
+    const size_t S = (size_t)rng.range(2, 5), A = (size_t)rng.range(1, 3), O = (size_t)rng.range(2, 4);
+    const unsigned root = (unsigned)rng.next();
+    const bool sparse = rng.coin(), pomdp = rng.coin();
+    T3 t = genTable(rng, S, A, S, sparse), r = genRewards(rng, S, A), o = genTable(rng, S, A, O, sparse);
+    std::uniform_real_distribution<double> d01(0.0, 1.0);
+    const size_t s0 = rng.below(S);
+    auto go = [&](auto & pm) {
+        SeederMirror sm(root);
+        std::mt19937 m1(sm.next()), m2(sm.next());
+        std::vector<double> us; std::vector<size_t> out;
+        size_t s = s0, sum = 0;
+        for (int k = 0; k < steps; ++k) {
+            const size_t a = sum % A;
+            if (!pomdp) { us.push_back(d01(m1)); auto [s1, rew] = pm.sampleSR(s, a); out.push_back(s1); sum += s1; s = s1; }
+            else { us.push_back(d01(m1)); us.push_back(d01(m2)); auto [s1, ob, rew] = pm.sampleSOR(s, a); out.push_back(s1); out.push_back(ob); sum += s1 + ob; s = s1; }
+        }
+        Line l; l << "C08" << "traj" << (pomdp ? "pomdp" : "mdp") << (sparse ? "sparse" : "dense") << A;
+        l << A; for (size_t a = 0; a < A; ++a) { l << S; for (size_t x = 0; x < S; ++x) { std::vector<double> row; rowOf(pm.getTransitionFunction(a), x, row); l.nums(row); } }
+        l << A; for (size_t a = 0; a < A; ++a) { l << S; for (size_t x = 0; x < S; ++x) { std::vector<double> row; rowOf(pm.getObservationFunction(a), x, row); l.nums(row); } }
+        l << s0; l.nums(us); l << "|"; l.nats(out); l.emit();
+    };
+    AI::Seeder::setRootSeed(root);
+    if (!sparse) { AI::POMDP::Model<AI::MDP::Model> pm(O, o, S, A, t, r, 0.9); go(pm); }
+    else { AI::POMDP::SparseModel<AI::MDP::SparseModel> pm(O, o, S, A, t, r, 0.9); go(pm); }
 }
 
 // Factored model: one independent row scan per state factor, all from the object's own engine.
+// a random DDN: state factors of sizes 2..4, agents with 2..3 actions, every feature's parent set selected by a NON-PREFIX
+// subset of the agents, one (non-prefix) feature tag per joint action of those agents; rows are genProb shapes; rewards:
+// 1..3 bases on random state/action tags.  Exercises DDNGraph::getId / toIndexPartial / factorSpacePartial where a wrong
+// multiplier or a wrong start offset matters (SysAdmin has uniform sizes).
+static std::vector<size_t> randomTag(Rng & rng, size_t n, size_t maxLen) {
+    std::vector<size_t> t;
+    do { t.clear(); for (size_t i = 0; i < n; ++i) if (rng.coin()) t.push_back(i); } while (t.empty() || t.size() > maxLen);
+    return t;
+}
+static AI::Factored::MDP::CooperativeModel makeRandomCoop(Rng & rng) {
+    namespace F = AI::Factored;
+    const size_t nS = (size_t)rng.range(2, 4), nA = (size_t)rng.range(1, 3);
+    F::State S(nS); F::Action A(nA);   // sizes differ between factors (2..4 / 2..3)
+    for (auto & x : S) x = (size_t)rng.range(2, 4);
+    for (auto & x : A) x = (size_t)rng.range(2, 3);
+    F::DDNGraph graph(S, A);
+    F::DDN::TransitionMatrix T;
+    for (size_t i = 0; i < nS; ++i) {
+        // tags of up to THREE keys over non-uniform sizes: with two keys the second multiplier is just the first key's size,
+        // so a wrong multiplier chain in toIndexPartial / factorSpacePartial only shows from the third key on (mutation R4j)
+        F::DDNGraph::ParentSet ps; size_t rows;
+        do {
+            ps.agents = randomTag(rng, nA, rng.coin(1, 3) ? 3 : 2); ps.features.clear(); rows = 0;
+            const size_t na = F::factorSpacePartial(ps.agents, A);
+            for (size_t k = 0; k < na; ++k) { ps.features.push_back(randomTag(rng, nS, rng.coin(1, 3) ? 3 : 2)); rows += F::factorSpacePartial(ps.features.back(), S); }
+        } while (rows > 160);
+        graph.push(ps);
+        AI::Matrix2D m(rows, S[i]);
+        for (size_t r = 0; r < rows; ++r) { int shape; auto p = genProb(rng, S[i], shape); for (size_t c = 0; c < S[i]; ++c) m(r, c) = p[c]; }
+        T.push_back(std::move(m));
+    }
+    F::FactoredMatrix2D R;
+    const size_t nb = (size_t)rng.range(1, 3);
+    for (size_t b = 0; b < nb; ++b) {
+        F::BasisMatrix bm; bm.tag = randomTag(rng, nS, 3); bm.actionTag = randomTag(rng, nA, 3);
+        bm.values.resize(F::factorSpacePartial(bm.tag, S), F::factorSpacePartial(bm.actionTag, A));
+        for (long r = 0; r < bm.values.rows(); ++r) for (long c = 0; c < bm.values.cols(); ++c) bm.values(r, c) = (double)rng.range(-8, 8) / 4.0;
+        R.bases.push_back(std::move(bm));
+    }
+    return AI::Factored::MDP::CooperativeModel(std::move(graph), std::move(T), std::move(R), 0.9);
+}
+
+static void run_factored(Rng & rng, const AI::Factored::MDP::CooperativeModel & model, unsigned root, int nsamples, int coopLines);
+
 static void emit_factored(Rng & rng, int nsamples) {
     namespace FM = AI::Factored::MDP;
     const unsigned root = (unsigned)rng.next();
+    if (rng.coin(1, 3)) {
+        AI::Seeder::setRootSeed(root);
+        auto model = makeRandomCoop(rng);
+        std::printf("#stat coop_topology_random_ddn 1\n");
+        run_factored(rng, model, root, nsamples, 2);
+        return;
+    }
     const unsigned agents = (unsigned)rng.range(3, 5);
     auto dy = [&]() { return (double)rng.range(1, 6) / 16.0; };
     const double pf = dy(), pfb = dy(), pd = dy(), pdb = dy(), pl = dy(), pg = dy() + 0.5, pff = dy();
@@ -458,8 +690,13 @@ static void emit_factored(Rng & rng, int nsamples) {
     auto model = topo == 6 ? FM::makeSysAdminGrid(2, (unsigned)rng.range(2, 3), pf, pfb, pd, pdb, pl, pg, pff)
                : topo == 7 ? FM::makeSysAdminTorus(3, 3, pf, pfb, pd, pdb, pl, pg, pff)   // a torus needs at least 3 per side (2 makes both neighbours the same machine: rejected by DDNGraph)
                : (topo & 1) ? FM::makeSysAdminBiRing(agents, pf, pfb, pd, pdb, pl, pg, pff) : FM::makeSysAdminUniRing(agents, pf, pfb, pd, pdb, pl, pg, pff);
-    AI::Seeder::setRootSeed(root);
-    std::mt19937 mir(AI::Seeder::getSeed());
+    run_factored(rng, model, root, nsamples, topo >= 6 ? 1 : 2);
+}
+
+// one independent row scan per state factor, all from the object's own engine
+static void run_factored(Rng & rng, const AI::Factored::MDP::CooperativeModel & model, unsigned root, int nsamples, int coopLines) {
+    SeederMirror sm(root);
+    std::mt19937 mir(sm.next());
     std::uniform_real_distribution<double> d01(0.0, 1.0);
     const auto & S = model.getS(); const auto & A = model.getA();
     for (int t = 0; t < nsamples; ++t) {
@@ -482,7 +719,7 @@ static void emit_factored(Rng & rng, int nsamples) {
         }
         l.nums(us); l << model.getExpectedReward(s, a, s1) << "|"; l.nats(s1); l << rew; l.emit();
         // exact tie of the whole composition: graph (parent sets), every transition matrix, every reward basis
-        if (t < (topo >= 6 ? 1 : 2)) {
+        if (t < coopLines) {
             Line x; x << "C08" << "coop" << (srs ? "srs" : "sr"); x.nats(S); x.nats(A);
             const auto & ps = model.getGraph().getParentSets();
             x << (size_t)ps.size();
@@ -512,8 +749,8 @@ static void emit_sparse_model_witness() {
     std::uniform_real_distribution<double> d01(0.0, 1.0);
     unsigned bestRoot = 0; long best = -1; double bestU = 0;
     for (unsigned root = 1; root <= 6; ++root) {
-        AI::Seeder::setRootSeed(root);
-        std::mt19937 mir(AI::Seeder::getSeed());
+        SeederMirror sm(root);
+        std::mt19937 mir(sm.next());
         const long cap = best < 0 ? 8000000 : best;
         for (long i = 0; i < cap; ++i) { double u = d01(mir); if (u >= sum) { best = i; bestRoot = root; bestU = u; break; } }
     }
@@ -527,8 +764,218 @@ static void emit_sparse_model_witness() {
     Line l; l << "C08" << "sr" << "sparse"; l.nums(row); l << bestU << m.getExpectedReward(0, 0, 0) << "|" << s1 << rew; l.emit();
 }
 
+
+// ---------------------------------------------------------------- learned models: MaximumLikelihoodModel / SparseMaximumLikelihoodModel
+// rows are visit counts over their total (non-dyadic); never-visited pairs are self loops
+static void emit_learned(Rng & rng, int nsamples) {
+    const size_t S = (size_t)rng.range(2, 5), A = (size_t)rng.range(1, 3);
+    const unsigned root = (unsigned)rng.next();
+    const bool sparse = rng.coin(), syncNow = !rng.coin(1, 4);
+    const int K = (int)rng.range(0, 40);
+    std::uniform_real_distribution<double> d01(0.0, 1.0);
+    auto go = [&](auto & exp, auto makeModel, const char * kind) {
+        for (int k = 0; k < K; ++k) exp.record(rng.below(S), rng.below(A), rng.below(S), (double)rng.range(-8, 8) / 4.0);
+        AI::Seeder::setRootSeed(root);
+        auto m = makeModel(exp);
+        if (!syncNow && rng.coin()) m.sync();
+        SeederMirror sm(root);
+        std::mt19937 m1(sm.next());
+        std::vector<double> row;
+        for (int i = 0; i < nsamples; ++i) {
+            const size_t s = rng.below(S), a = rng.below(A);
+            const double u = d01(m1);
+            auto [s1, rew] = m.sampleSR(s, a);
+            rowOf(m.getTransitionFunction(a), s, row);
+            Line l; l << "C08" << "sr" << kind; l.nums(row); l << u << m.getExpectedReward(s, a, 0) << "|" << s1 << rew; l.emit();
+            if constexpr (isSparseMat<decltype(m.getTransitionFunction(a))>) {
+                Line x; x << "C08" << "spsr" << S; putEntries(x, m.getTransitionFunction(a), s);
+                x << u << m.getRewardFunction().coeff(s, a) << "|" << s1 << rew; x.emit();
+            }
+        }
+    };
+    if (!sparse) { AI::MDP::Experience e(S, A); go(e, [&](auto & x) { return AI::MDP::MaximumLikelihoodModel<AI::MDP::Experience>(x, 0.9, syncNow); }, "ml-dense"); }
+    else { AI::MDP::SparseExperience e(S, A); go(e, [&](auto & x) { return AI::MDP::SparseMaximumLikelihoodModel<AI::MDP::SparseExperience>(x, 0.9, syncNow); }, "ml-sparse"); }
+    std::printf("#stat learned_%s_%s 1\n", sparse ? "sparse" : "dense", syncNow ? "synced" : "lazy");
+}
+
+// ---------------------------------------------------------------- bandit models (reward samples)
+// Factored::Bandit::Model over uniform arms [lo, hi): every group owns a Bandit::Model with its own engine (one Seeder
+// seed each, in construction order); FlattenedModel converts a joint action id with toFactors and sums the group rewards.
+static void emit_fband(Rng & rng, int nsamples) {
+    using Dist = std::uniform_real_distribution<double>;
+    const unsigned root = (unsigned)rng.next();
+    const size_t nAgents = (size_t)rng.range(2, 4);
+    AI::Factored::Action A(nAgents); for (auto & x : A) x = (size_t)rng.range(2, 3);
+    const size_t G = (size_t)rng.range(1, 3);
+    std::vector<AI::Factored::PartialKeys> groups(G);
+    std::vector<std::vector<std::pair<double, double>>> armTab(G);
+    std::vector<AI::Bandit::Model<Dist>> arms;
+    AI::Seeder::setRootSeed(root);
+    for (size_t g = 0; g < G; ++g) {
+        // non-prefix keys: a random non-empty subset of the agents, ascending
+        do { groups[g].clear(); for (size_t i = 0; i < nAgents; ++i) if (rng.coin()) groups[g].push_back(i); } while (groups[g].empty() || groups[g].size() > 3);
+        const size_t n = AI::Factored::factorSpacePartial(groups[g], A);
+        std::vector<std::tuple<double, double>> args;
+        for (size_t k = 0; k < n; ++k) { double lo = (double)rng.range(-8, 8) / 4.0, w = std::ldexp(1.0, (int)rng.range(-1, 2)); args.emplace_back(lo, lo + w); armTab[g].push_back({lo, lo + w}); }
+        arms.emplace_back(args);
+    }
+    AI::Factored::Bandit::Model<Dist> fm(A, groups, std::move(arms));
+    AI::Factored::Bandit::FlattenedModel<Dist> flat(fm);
+    SeederMirror sm(root);
+    std::vector<std::mt19937> eng; for (size_t g = 0; g < G; ++g) eng.emplace_back(sm.next());
+    std::uniform_real_distribution<double> d01(0.0, 1.0);
+    const size_t total = AI::Factored::factorSpace(A);
+    for (int t = 0; t < nsamples; ++t) {
+        const bool useFlat = rng.coin();
+        std::vector<double> us; for (size_t g = 0; g < G; ++g) us.push_back(d01(eng[g]));
+        Line l; l << "C08" << "fband" << (useFlat ? "flat" : "joint"); l.nats(A); l << G;
+        for (size_t g = 0; g < G; ++g) { l.nats(groups[g]); l << (size_t)armTab[g].size(); for (auto & ar : armTab[g]) { l << ar.first; l << ar.second; } }
+        if (useFlat) {
+            const size_t id = rng.below(total);
+            const double r = flat.sampleR(id);
+            l << (size_t)0 << id; l.nums(us); l << "|" << (size_t)1 << r; l.emit();
+        } else {
+            AI::Factored::Action a(nAgents); for (size_t i = 0; i < nAgents; ++i) a[i] = rng.below(A[i]);
+            const auto & rews = fm.sampleR(a);
+            std::vector<double> o(rews.data(), rews.data() + rews.size());
+            l.nats(a); l << (size_t)0; l.nums(us); l << "|"; l.nums(o); l.emit();
+        }
+    }
+    std::printf("#stat fband_groups_%zu 1\n", G);
+}
+
+// ---------------------------------------------------------------- factored learned models: is the engine seeded?
+// CooperativeMaximumLikelihoodModel: every factor's sample against the draws of an mt19937 seeded with the Seeder seed the
+// object is expected to take.  CooperativeThompsonModel: its constructor samples the whole transition function from the
+// posterior with the object's engine, so two objects built from the same experience under different root seeds must differ.
+static void emit_seeded_factored(Rng & rng, bool thompson, unsigned root) {
+    namespace FM = AI::Factored::MDP;
+    AI::Seeder::setRootSeed(root);
+    auto truth = FM::makeSysAdminUniRing(3, 0.1, 0.2, 0.3, 0.4, 0.2, 0.2, 0.1);     // takes the first seed
+    FM::CooperativeExperience exp(truth.getGraph());
+    const auto & S = truth.getS(); const auto & A = truth.getA();
+    for (int k = 0; k < 300; ++k) {
+        AI::Factored::State s(S.size()); AI::Factored::Action a(A.size());
+        for (size_t i = 0; i < S.size(); ++i) s[i] = rng.below(S[i]);
+        for (size_t i = 0; i < A.size(); ++i) a[i] = rng.below(A[i]);
+        auto [s1, rews] = truth.sampleSRs(s, a);
+        AI::Factored::Rewards rr(S.size()); rr.setZero(); for (long i = 0; i < std::min<long>(rews.size(), rr.size()); ++i) rr[i] = rews[i];
+        exp.record(s, a, s1, rr);
+    }
+    if (!thompson) {
+        FM::CooperativeMaximumLikelihoodModel ml(exp, 0.9, true);
+        SeederMirror sm(root); sm.next();
+        std::mt19937 mir(sm.next());
+        std::uniform_real_distribution<double> d01(0.0, 1.0);
+        Line l; l << "C08" << "seededrows" << "CooperativeMaximumLikelihoodModel";
+        std::vector<std::vector<double>> rows; std::vector<double> us; std::vector<size_t> outs;
+        for (int t = 0; t < 6; ++t) {
+            AI::Factored::State s(S.size()); AI::Factored::Action a(A.size());
+            for (size_t i = 0; i < S.size(); ++i) s[i] = rng.below(S[i]);
+            for (size_t i = 0; i < A.size(); ++i) a[i] = rng.below(A[i]);
+            auto [s1, rew] = ml.sampleSR(s, a);
+            for (size_t i = 0; i < S.size(); ++i) {
+                std::vector<double> row; rowOf(ml.getTransitionFunction().transitions[i], ml.getGraph().getId(i, s, a), row);
+                rows.push_back(row); us.push_back(d01(mir)); outs.push_back(s1[i]);
+            }
+        }
+        l << (size_t)rows.size(); for (auto & r : rows) l.nums(r); l.nums(us); l << "|"; l.nats(outs); l.emit();
+    } else {
+        auto table = [&](unsigned r) {
+            AI::Seeder::setRootSeed(r);
+            FM::CooperativeThompsonModel tm(exp, 0.9);
+            std::vector<double> v;
+            for (auto & m : tm.getTransitionFunction().transitions) for (long i = 0; i < m.rows(); ++i) for (long j = 0; j < m.cols(); ++j) v.push_back(m(i, j));
+            return v;
+        };
+        const auto t1 = table(root), t2 = table(root + 1);
+        Line l; l << "C08" << "seedvar" << "CooperativeThompsonModel"; l.nums(t1); l << "|"; l.nums(t2); l.emit();
+    }
+}
+
+
+// CooperativeMaximumLikelihoodModel::sampleSR / sampleSRs over a random DDN after a few hundred recorded transitions (rows are
+// visit frequencies; unvisited rows keep their initial distribution); the object's engine is mirrored as the code has it
+// (default-constructed until fixes/C08-9, then the object's Seeder seed)
+#ifndef C08_FACTORED_LEARNED_SEEDED
+#define C08_FACTORED_LEARNED_SEEDED false
+#endif
+static void emit_factored_learned(Rng & rng, int nsamples) {
+    namespace FM = AI::Factored::MDP;
+    const unsigned root = (unsigned)rng.next();
+    AI::Seeder::setRootSeed(root);
+    auto truth = makeRandomCoop(rng);                                     // takes the first seed
+    FM::CooperativeExperience exp(truth.getGraph());
+    const auto & S = truth.getS(); const auto & A = truth.getA();
+    auto randSA = [&](AI::Factored::State & s, AI::Factored::Action & a) {
+        s.resize(S.size()); a.resize(A.size());
+        for (size_t i = 0; i < S.size(); ++i) s[i] = rng.below(S[i]);
+        for (size_t i = 0; i < A.size(); ++i) a[i] = rng.below(A[i]);
+    };
+    const int K = (int)rng.range(0, 300);
+    for (int k = 0; k < K; ++k) {
+        AI::Factored::State s; AI::Factored::Action a; randSA(s, a);
+        auto [s1, r] = truth.sampleSR(s, a);
+        AI::Factored::Rewards rr(S.size()); for (long i = 0; i < rr.size(); ++i) rr[i] = (double)rng.range(-4, 4) / 4.0;
+        exp.record(s, a, s1, rr);
+    }
+    FM::CooperativeMaximumLikelihoodModel ml(exp, 0.9, true);
+    SeederMirror sm(root); sm.next();
+    std::mt19937 mir;
+    if (C08_FACTORED_LEARNED_SEEDED) mir.seed(sm.next());
+    std::uniform_real_distribution<double> d01(0.0, 1.0);
+    for (int t = 0; t < nsamples; ++t) {
+        AI::Factored::State s; AI::Factored::Action a; randSA(s, a);
+        std::vector<double> us; for (size_t i = 0; i < S.size(); ++i) us.push_back(d01(mir));
+        AI::Factored::State s1; double rew = 0.0;
+        if (rng.coin()) { auto res = ml.sampleSR(s, a); s1 = std::get<0>(res); rew = std::get<1>(res); }
+        else { auto res = ml.sampleSRs(s, a); s1 = std::get<0>(res); const auto & rews = std::get<1>(res); for (long i = 0; i < rews.size(); ++i) rew += rews[i]; }
+        Line l; l << "C08" << "fsrml" << (size_t)S.size();
+        for (size_t i = 0; i < S.size(); ++i) {
+            std::vector<double> row; rowOf(ml.getTransitionFunction().transitions[i], ml.getGraph().getId(i, s, a), row);
+            l.nums(row);
+        }
+        l.nums(us); l << ml.getExpectedReward(s, a, s1) << "|"; l.nats(s1); l << rew; l.emit();
+    }
+    std::printf("#stat factored_learned 1\n");
+}
+
+
+// CooperativeModel::sampleSR repeated on one object (s <- s1): every factor of every step draws from the same engine in
+// order; the joint action of a step depends on all earlier outcomes
+static void emit_traj_coop(Rng & rng, int steps) {
+    namespace FM = AI::Factored::MDP;
+    const unsigned root = (unsigned)rng.next();
+    AI::Seeder::setRootSeed(root);
+    auto model = rng.coin() ? makeRandomCoop(rng) : FM::makeSysAdminUniRing(3, 0.125, 0.25, 0.375, 0.5, 0.25, 0.75, 0.125);
+    SeederMirror sm(root);
+    std::mt19937 mir(sm.next());
+    std::uniform_real_distribution<double> d01(0.0, 1.0);
+    const auto & S = model.getS(); const auto & A = model.getA();
+    AI::Factored::State s(S.size()); for (size_t i = 0; i < S.size(); ++i) s[i] = rng.below(S[i]);
+    const AI::Factored::State s0 = s;
+    std::vector<double> us; std::vector<size_t> out; size_t sum = 0;
+    for (int t = 0; t < steps; ++t) {
+        AI::Factored::Action a(A.size()); for (size_t j = 0; j < A.size(); ++j) a[j] = (sum + j) % A[j];
+        for (size_t i = 0; i < S.size(); ++i) us.push_back(d01(mir));
+        auto [s1, rew] = model.sampleSR(s, a);
+        for (auto x : s1) { out.push_back(x); sum += x; }
+        s = s1;
+    }
+    Line x; x << "C08" << "trajc"; x.nats(S); x.nats(A);
+    const auto & ps = model.getGraph().getParentSets();
+    x << (size_t)ps.size();
+    for (size_t i = 0; i < ps.size(); ++i) {
+        x.nats(ps[i].agents); x << (size_t)ps[i].features.size(); for (auto & f : ps[i].features) x.nats(f);
+        const auto & m = model.getTransitionFunction().transitions[i];
+        x << (size_t)m.rows(); for (long r = 0; r < m.rows(); ++r) { std::vector<double> row; rowOf(m, (size_t)r, row); x.nums(row); }
+    }
+    x.nats(s0); x.nums(us); x << "|"; x.nats(out); x.emit();
+    std::printf("#stat traj_coop 1\n");
+}
+
 // ---------------------------------------------------------------- cases
-static const long kWitness = 22;
+static const long kWitness = 26;
 
 // exhaustive small scope: every vector k/8 with 2..4 entries (zeros anywhere, mass anywhere)
 static std::vector<std::vector<double>> g_small;
@@ -579,6 +1026,10 @@ static void witness(Rng & rng, long idx) {
 #endif
             break;
         }
+        case 22: emit_seeded(rng, false, 1); break;                               // POMDP::Model(NO_CHECK): engine not seeded from the Seeder
+        case 23: emit_seeded(rng, true, 2); break;                                // POMDP::SparseModel(NO_CHECK) likewise
+        case 24: emit_seeded_factored(rng, false, 3); break;                      // CooperativeMaximumLikelihoodModel: engine never seeded
+        case 25: emit_seeded_factored(rng, true, 4); break;                       // CooperativeThompsonModel: posterior sample identical for every root seed
         case 20: emit_gamma_underflow(false); break;                             // Dirichlet(0.001, 0.001): both gamma draws underflow to 0 -> NaN
         case 21: emit_gamma_underflow(true); break;                              // Beta(0.001, 0.001) likewise
         case 14: emit_proj({1e308, 1e308}); break;                               // finite input whose sum overflows a double
@@ -608,7 +1059,7 @@ void verif::verif_case(Rng & rng, long idx, const std::string & tier) {
     idx -= (long)g_small.size();
     const bool thorough = tier == "thorough";
     const size_t maxN = thorough ? 64 : 12;
-    int fam = (int)((idx - kWitness) % 10);
+    int fam = (int)((idx - kWitness) % 14);
     size_t n = (size_t)rng.range(1, rng.coin(3, 4) ? 8 : (long)maxN);
     int shape = 0;
     switch (fam) {
@@ -625,7 +1076,7 @@ void verif::verif_case(Rng & rng, long idx, const std::string & tier) {
             size_t r = rng.below(R);
             std::printf("#stat sparse_shape%d 1\n#stat sparse_%s 1\n", shape, r + 1 == R ? "lastrow" : "innerrow");
             auto ks = sweep(rng, rows[r], 6);
-            if (!ks.empty()) emit_sparse(rows, r, ks);
+            if (!ks.empty()) emit_sparse(rows, r, ks, !rng.coin(1, 3));
             break;
         }
         case 2: {
@@ -667,6 +1118,14 @@ void verif::verif_case(Rng & rng, long idx, const std::string & tier) {
         }
         case 8: emit_gamma(rng); emit_gamma(rng); std::printf("#stat gamma 1\n"); break;
         case 6: emit_models(rng, thorough ? 12 : 8); std::printf("#stat models 1\n"); break;
+        case 10: emit_isprobm(rng); emit_isprobm(rng); break;
+        case 12: emit_learned(rng, thorough ? 12 : 8); break;
+        case 13: if (rng.coin()) emit_fband(rng, thorough ? 10 : 6); else emit_factored_learned(rng, thorough ? 8 : 4); break;
+        case 11: {
+            if (rng.coin(1, 8)) { emit_seeded(rng, rng.coin(), (unsigned)rng.next()); std::printf("#stat seeded 1\n"); }
+            if (rng.coin(1, 4)) { emit_traj_coop(rng, (int)rng.range(1, thorough ? 8 : 4)); break; }
+            emit_traj(rng, (int)rng.range(1, thorough ? 24 : 10)); std::printf("#stat traj 1\n"); break;
+        }
         default: emit_factored(rng, thorough ? 8 : 4); std::printf("#stat factored_models 1\n"); break;
     }
 }
